@@ -7,6 +7,7 @@ import (
 	"encoding/binary"
 	"encoding/json"
 	"fmt"
+	"os"
 	"strings"
 	"testing"
 	"unicode/utf8"
@@ -73,6 +74,10 @@ func genBloomCase(t *rapid.T) bloomCase {
 	default:
 		// a table flushed from a default-size (4 MiB) memtable holds on the order of 10^5 keys
 		c.GenCount = rapid.IntRange(60000, 160000).Draw(t, "gencount")
+	}
+	if os.Getenv("VERIF_FUZZ") != "" && c.GenCount > 6000 {
+		// Go's native fuzzer kills a worker whose single input runs longer than 10 s
+		c.GenCount = 6000
 	}
 	if len(c.Explicit)+c.GenCount == 0 {
 		c.Explicit = append(c.Explicit, vlib.Str(anyKey.Draw(t, "key")))
